@@ -289,6 +289,15 @@ def rec_funs():
 def m_take_top(ip, stack, n):
     d = stack.f['deque']
     n = ip.resolve(n)
+    if d.items is not None and not isinstance(n, int) and sym.concrete_int(n) is not None:
+        n = sym.concrete_int(n)
+    if d.items is not None and isinstance(n, int):
+        # concrete-length stack (lemma mode): the items themselves, in the order they are popped
+        from .models import raise_
+        if n > len(d.items):
+            raise_(IndexError, 'pop from an empty deque')
+        ip.heap_write_guard()
+        return ZList('bytes', kind='list', items=[d.items.pop() for _ in range(max(n, 0))])
     if not ip.ctx.branch(zint(n) <= zint(d.ln), 'enough items'):
         from .models import raise_
         raise_(IndexError, 'pop from an empty deque')
@@ -308,6 +317,10 @@ def m_put_all(ip, stack, items):
     items = ip.resolve(items)
     if isinstance(items, (list, tuple)):
         for it in items:
+            ip.call_method(stack, 'put', [it], {})
+        return None
+    if isinstance(items, ZList) and items.items is not None:
+        for it in list(items.items):
             ip.call_method(stack, 'put', [it], {})
         return None
     if not (isinstance(items, ZList) and items.elem == 'bytes'):
@@ -525,7 +538,9 @@ def m_is_list_or_absent(ip, d, k):
     if found:
         return v is _ABSENT or (isinstance(v, (list, ZList)))
     v = _entry(ip, d, k)
-    return z3.Or(VAL.is_absent(v), VAL.is_vref(v))
+    # a list is stored as an object reference, or -- a python list of bytes converted with its dict -- as a
+    # list value
+    return z3.Or(VAL.is_absent(v), VAL.is_vref(v), VAL.is_vblist(v))
 
 
 @_always
@@ -534,7 +549,7 @@ def m_list_len_at(ip, d, k):
     if found:
         return 0 if v is _ABSENT else models.m_len(ip, v)
     v = _entry(ip, d, k)
-    return z3.If(VAL.is_vref(v), ref_len(VAL.r(v)), 0)
+    return z3.If(VAL.is_vref(v), ref_len(VAL.r(v)), z3.If(VAL.is_vblist(v), VAL.ll(v), 0))
 
 
 @_always
@@ -619,7 +634,9 @@ def m_defined(ip, name, f, *args):
     zs = []
     for a in args:
         a = ip.resolve(a)
-        if isinstance(a, HDict):
+        if isinstance(a, HDict) and getattr(a, 'proj_keys', None) is not None:
+            zs.extend(z3.simplify(z3.Select(a.maps['s'], z3.StringVal(k))) for k in a.proj_keys)
+        elif isinstance(a, HDict):
             zs.extend(a.maps[sp] for sp in sorted(a.maps))
         elif isinstance(a, bool):
             zs.append(z3.BoolVal(a))
@@ -640,6 +657,33 @@ def m_defined(ip, name, f, *args):
 
 
 @_always
+def m_restrict_str(ip, d, keys):
+    d = ip.resolve(d)
+    keys = [str(k) for k in ip.iter_concrete(keys)]
+    if isinstance(d, dict):
+        d = models.hdict_from_concrete(ip, d)
+    if not isinstance(d, HDict):
+        raise Unsupported('restrict_str of a non-dict')
+    maps = {sp: z3.K(srt, VAL.absent) for sp, srt in HDict.SPACES.items()}
+    for k in keys:
+        maps['s'] = z3.Store(maps['s'], z3.StringVal(k), z3.Select(d.maps['s'], z3.StringVal(k)))
+    r = HDict(d.name + '|keys', maps)
+    r.proj_keys = tuple(keys)
+    return r
+
+
+@_always
+def m_lemma_point(ip, name, *values):
+    cb = (ip.ctx.ghost.get('lemma_points') or {}).get(name)
+    if cb is None:
+        raise Unsupported(f'lemma_point({name}) reached but the lemma states no claim for it')
+    if ip.ctx.ghost.get('speculating', 0):
+        ip.heap_write_guard()
+    cb(ip, *values)
+    return None
+
+
+@_always
 def m_unknown_bool(ip, tag):
     return z3.Bool(f'unk_{tag}#{ip.ctx.count("unk:" + str(tag))}')
 
@@ -647,6 +691,8 @@ def m_unknown_bool(ip, tag):
 def install2():
     models.register_model(vocab.defined, m_defined)
     models.register_model(vocab.unknown_bool, m_unknown_bool)
+    models.register_model(vocab.restrict_str, m_restrict_str)
+    models.register_model(vocab.lemma_point, m_lemma_point)
     models.register_model(vocab.dict_same_except, m_dict_same_except)
     models.register_model(vocab.strint_part, m_strint_part)
     models.register_model(vocab.concrete_len, m_concrete_len)
